@@ -34,6 +34,7 @@ ObsInit(DK) ==
     pe    |-> [dk \in DK |-> 0],
     cur   |-> [dk \in DK |-> 0],
     mark  |-> [dk \in DK |-> NoMark],
+    dirty |-> [dk \in DK |-> FALSE],   \* a purge could not delete the persisted copy (the store refused)
     stuck |-> {},
     kills |-> 0 ]
 
@@ -52,8 +53,11 @@ NewReq(k, d, m, pe0) ==
     ver |-> 0,                \* version delivered to the client (0: none)
     age |-> -1, ageNow |-> 0, \* Age computed for a hit and the clock value it was computed from
     startPe |-> pe0,          \* purges of this key completed before the request started
+    upPe |-> pe0,             \* purges of this key completed before the request went to the upstream
     disturbed |-> FALSE,      \* the key's entry was purged/evicted after this request looked it up
     loadBad |-> FALSE,        \* the store answered this request's lookup with anything but a well-formed record
+    loaded |-> FALSE,         \* the store answered this request's lookup with a well-formed record ...
+    viaDirty |-> FALSE,       \*   ... of a key whose persisted copy a purge had failed to delete
     seen |-> FALSE,           \* marker of the key as it was at the request's first lookup
     markLive |-> FALSE, markKind |-> "none", markAt |-> 0, markUntil |-> 0, markVer |-> 0,
     err |-> "none" ]          \* none, upstream (the upstream failed), own (pike itself produced the error)
@@ -82,8 +86,15 @@ OLooked(o0, r, e) ==
 OLoadBad(o0, r) ==
   LET o == GC(o0) IN [o EXCEPT !.req[r].loadBad = TRUE]
 
-(* a lookup of r decided under the entry's lock: label, whether r has to wait, clock value read *)
-ODecide(o0, r, label, wait, now) ==
+(* the store answered the lookup of request r with a well-formed record *)
+OLoaded(o0, r) ==
+  LET o == GC(o0)  q == o.req[r] IN
+  [o EXCEPT !.req[r].loaded = TRUE, !.req[r].viaDirty = o.dirty[<<q.disp, q.key>>]]
+
+(* a lookup of r decided under the entry's lock: label, whether r has to wait, clock value read,
+   version held by the entry if it is a hit.  A version the store handed back although a purge tried to
+   delete it counts as obtained again at that moment (the purge could not do better). *)
+ODecide(o0, r, label, wait, now, v) ==
   LET o == GC(o0)
       q == o.req[r]
       m == o.mark[<<q.disp, q.key>>]
@@ -92,7 +103,9 @@ ODecide(o0, r, label, wait, now) ==
                            !.markLive = m.live /\ o.cur[<<q.disp, q.key>>] = q.ent,
                            !.markKind = m.kind, !.markAt = m.at,
                            !.markUntil = m.until, !.markVer = m.ver]
-  IN [o EXCEPT !.req[r] =
+      o1 == IF q.loaded /\ q.viaDirty /\ label = "hit" /\ v \in DOMAIN o.ver
+            THEN [o EXCEPT !.ver[v].fetchPe = o.pe[<<q.disp, q.key>>]] ELSE o
+  IN [o1 EXCEPT !.req[r] =
         [q1 EXCEPT !.phase = IF wait THEN "waiting" ELSE "decided",
                    !.label = IF wait THEN q.label ELSE label,
                    !.waited = q.waited \/ wait,
@@ -108,7 +121,8 @@ OAge(o0, r, age, now) ==
 
 OUpStart(o0, r) ==
   LET o == GC(o0) IN
-  [o EXCEPT !.req[r].phase = "upstream", !.req[r].contacts = @ + 1]
+  [o EXCEPT !.req[r].phase = "upstream", !.req[r].contacts = @ + 1,
+            !.req[r].upPe = o.pe[<<o.req[r].disp, o.req[r].key>>]]
 
 (* the upstream answered r; hasResp: a response came back; ttl: lifetime it grants (0: not shareable) *)
 OUpEnd(o0, r, hasResp, ttl) ==
@@ -116,7 +130,7 @@ OUpEnd(o0, r, hasResp, ttl) ==
       q == o.req[r]
       v == Len(o.ver) + 1
       nv == [key |-> q.key, disp |-> q.disp, fetcher |-> r, ttl |-> ttl,
-             fetchPe |-> q.startPe, obtained |-> 0, stored |-> FALSE]
+             fetchPe |-> q.upPe, obtained |-> 0, stored |-> FALSE]
   IN IF hasResp
      THEN [o EXCEPT !.ver = Append(o.ver, nv), !.req[r].phase = "fetched", !.req[r].fetched = v]
      ELSE [o EXCEPT !.req[r].phase = "fetched"]
@@ -162,9 +176,9 @@ ORemoved(o0, d, k) ==
   LET o == GC(o0) IN
   [o EXCEPT !.cur[<<d, k>>] = 0, !.mark[<<d, k>>] = NoMark, !.req = Disturb(o, d, k)]
 
-(* the purge of <<d,k>> completed (persisted copy deleted, shard released) *)
-OPurged(o0, d, k) ==
-  LET o == GC(o0) IN [o EXCEPT !.pe[<<d, k>>] = @ + 1]
+(* the purge of <<d,k>> completed (shard released); ok: the persisted copy is gone (deleted, or no store) *)
+OPurged(o0, d, k, ok) ==
+  LET o == GC(o0) IN [o EXCEPT !.pe[<<d, k>>] = @ + 1, !.dirty[<<d, k>>] = ~ok]
 
 (* the LRU dropped the entry of <<d,k>> *)
 OEvicted(o0, d, k) ==
@@ -290,7 +304,8 @@ P_HfpLapses(o) ==
         => q.label = "fetching"
 
 (* C18: a request that starts after a purge of its key completed is never answered from something
-   whose fetch started before that purge completed *)
+   whose fetch started before that purge completed -- unless the store refused the purge's delete and
+   the request was answered from the record the store still returned *)
 P_PurgeEffective(o) ==
   \A r \in Done(o) :
      LET q == o.req[r] IN
